@@ -226,12 +226,70 @@ def presence(ctx, rule="C14.presence"):
     ctx.floor(rule, 6)
 
 
+def reader_types(ctx, rule="C14.reader-types"):
+    from .common_guard import raise_facts
+    ctx.explain(f"{rule}: the writers put symbolic parameters (free, measured, time-domain, expressions) into the saved text as STRINGS, and a "
+                "Python string is an Iterable: a helper of the io modules that RAISES for string arguments (found structurally: a raising "
+                "guard `isinstance(<parameter>, str)` at its top) is called only where its argument is known not to be a string - an earlier "
+                "`isinstance(x, str)` branch of the same if / elif chain, or `and not isinstance(x, str)` in the test. Otherwise the reader "
+                "rejects exactly the parameters the writer emits (every program with a symbolic parameter fails to load).")
+    rels = [r for r in ("io/xir_io.py", "io/blackbird_io.py", "io/utils.py", "io/__init__.py") if r in ctx.tree.modules]
+    # helpers that raise for str arguments
+    rejecting = {}
+    for rel_ in rels:
+        for f in ctx.tree.module(rel_).functions.values():
+            for node, exc, fs in raise_facts(f):
+                for a, v in fs:
+                    if v and isinstance(a, ast.Call) and dotted(a.func) == "isinstance" and len(a.args) == 2 and \
+                            isinstance(a.args[0], ast.Name) and a.args[0].id in f.params and dotted(a.args[1]) == "str":
+                        rejecting[f.qualname.split(".")[-1]] = f.params.index(a.args[0].id)
+    ctx.note(f"{rule}: helpers that raise for str arguments: {sorted(rejecting)}")
+    ctx.require(rejecting, "no io helper with a raising str guard found (_listr had one)")
+    n = 0
+    for rel_ in rels:
+        for f in ctx.tree.module(rel_).functions.values():
+            cfg = None
+            k = 0
+            for c in walk_no_nested(f.node):
+                if not isinstance(c, ast.Call):
+                    continue
+                cn = (dotted(c.func) or "").split(".")[-1]
+                if cn not in rejecting or len(c.args) <= rejecting[cn]:
+                    continue
+                arg = ast.unparse(c.args[rejecting[cn]]).replace(" ", "")
+                cfg = cfg or cfg_of(f.node)
+                ids = cfg.node_of_expr(c)
+                if not ids:
+                    continue
+                # only values that come from the parameters of a statement / operation can be the writers' strings
+                d = derives(f.node, c.args[rejecting[cn]], ids[0])
+                if not ({"params", "p"} & d.attr_reads):
+                    continue
+                n += 1
+                k += 1
+                ok = False
+                for a, v in path_facts(cfg, ids[0]):
+                    if isinstance(a, ast.Call) and dotted(a.func) == "isinstance" and len(a.args) == 2 and \
+                            ast.unparse(a.args[0]).replace(" ", "") == arg:
+                        types = ast.unparse(a.args[1])
+                        if not v and "str" in types:
+                            ok = True           # a string has been handled / excluded before
+                        if v and not any(t in types for t in ("str", "Iterable", "Sequence", "Sized", "Container", "object")):
+                            ok = True           # a concrete non-string type (list, tuple, np.ndarray ...)
+                ctx.ob(rule, f.site, ok, "" if ok else f"`{ast.unparse(c)[:40]}`: `{arg}` may be a string here (the writers emit symbolic parameters as "
+                       f"strings; str is an Iterable) and {cn} raises for strings - a saved program with a free / measured parameter cannot be loaded",
+                       role=f"str-excluded:{cn}:{k}", line=c.lineno)
+    ctx.require(n >= 2, f"only {n} calls of str-rejecting io helpers found")
+    ctx.floor(rule, 2)
+
+
 def rules(ctx):
     presence(ctx)
     fields(ctx)
     symbolic_kept(ctx)
     keys(ctx)
     names(ctx)
+    reader_types(ctx)
     c10.par_convert(ctx, "C14.par-convert")
     # writing a program must not change it (the reloaded program is compared with the original, and remote engines
     # serialise the user's program on every run)
